@@ -8,7 +8,7 @@ Local Open Scope Z_scope.
 (* Full statements (kept visible in C16/WitnessProofs.v):
    count_is_eof_statement v :=
      forall A db f rt s n e, wf db f -> 0 <= s -> 0 <= n -> impl_eof db v f = Some e ->
-       read_count A db v rt f s n = Some (Z.min n (Z.max 0 (e - s)))
+       read_count A db v lb rt f s n = Some (Z.min n (Z.max 0 (e - s)))
    bof_is_first_real_statement v :=
      forall db f k, wf db f -> 0 <= k -> (is_real db f k = true <-> impl_bof db v f <= k)
    Both are false of the unrepaired code. *)
@@ -29,12 +29,12 @@ Proof. exact bof_statement_refuted. Qed.
 
 (* THE count theorem for the frozen tree: every field without MPLEX, every window *)
 Theorem count_is_eof_current :
-  forall (A : Alg) (db : database) (v : variant) (f : field) (rt : ctype) (s n e : Z),
+  forall (A : Alg) (db : database) (v : variant) (lb : Z) (f : field) (rt : ctype) (s n e : Z),
     v_align v = true -> v_alloc0 v = true -> v_clamp v = true ->
     wf db f -> mplex_free f -> 0 <= s -> 0 <= n ->
-    ~ In TRawPad (uncovered A db v rt f s n) ->
+    ~ In TRawPad (uncovered A db v lb rt f s n) ->
     impl_eof db v f = Some e ->
-    read_count A db v rt f s n = Some (Z.min n (Z.max 0 (e - s))).
+    read_count A db v lb rt f s n = Some (Z.min n (Z.max 0 (e - s))).
 Proof. exact C16.WitnessProofs.count_is_eof_current. Qed.
 
 Theorem bof_floor_witness :
@@ -42,35 +42,35 @@ Theorem bof_floor_witness :
 Proof. exact witness_bof_floor. Qed.
 
 Theorem mplex_reseek_witness :
-  impl_eof db_mx vc x_mx = Some 14 /\ read_count XAlg db_mx vc F64 x_mx 0 1 = None /\
-  uncovered XAlg db_mx vc F64 x_mx 0 1 = [TMplexSeek].
+  impl_eof db_mx vc x_mx = Some 14 /\ read_count XAlg db_mx vc (-1) F64 x_mx 0 1 = None /\
+  uncovered XAlg db_mx vc (-1) F64 x_mx 0 1 = [TMplexSeek].
 Proof. exact witness_mplex_reseek. Qed.
 
 (* gd_getdata returns exactly min(n, max(0, gd_eof - s)) samples: on the region
    where the read path is proved (C01) and either the end-of-field is clamped
    only in gd_eof64 (C16-1) or no PHASE pushed it below zero inside the field *)
 Theorem count_is_eof_partial :
-  forall (db : database) (v : variant) (A : Alg) (f : field) (rt : ctype) (s n e : Z),
-    wf db f -> 0 <= s -> 0 <= n -> covered A db v rt f s n ->
+  forall (db : database) (v : variant) (lb : Z) (A : Alg) (f : field) (rt : ctype) (s n e : Z),
+    wf db f -> 0 <= s -> 0 <= n -> covered A db v lb rt f s n ->
     v_clamp v = true \/ noclamp db f ->
     impl_eof db v f = Some e ->
-    read_count A db v rt f s n = Some (Z.min n (Z.max 0 (e - s))).
+    read_count A db v lb rt f s n = Some (Z.min n (Z.max 0 (e - s))).
 Proof. exact count_is_eof. Qed.
 
 (* with the repairs (C01-2/3/4, C16-1): every field without MPLEX, every window *)
 Theorem count_is_eof_repaired :
-  forall (A : Alg) (db : database) (v : variant) (f : field) (rt : ctype) (s n e : Z),
+  forall (A : Alg) (db : database) (v : variant) (lb : Z) (f : field) (rt : ctype) (s n e : Z),
     read_repaired v -> v_clamp v = true -> wf db f -> mplex_free f -> 0 <= s -> 0 <= n ->
     impl_eof db v f = Some e ->
-    read_count A db v rt f s n = Some (Z.min n (Z.max 0 (e - s))).
+    read_count A db v lb rt f s n = Some (Z.min n (Z.max 0 (e - s))).
 Proof. exact C16.WitnessProofs.count_is_eof_repaired. Qed.
 
 (* fields without an end (INDEX and what is derived from INDEX alone) return every sample asked for *)
 Theorem count_without_eof_partial :
-  forall (db : database) (v : variant) (A : Alg) (f : field) (rt : ctype) (s n : Z),
-    wf db f -> 0 <= n -> covered A db v rt f s n -> v_clamp v = true \/ noclamp db f ->
+  forall (db : database) (v : variant) (lb : Z) (A : Alg) (f : field) (rt : ctype) (s n : Z),
+    wf db f -> 0 <= n -> covered A db v lb rt f s n -> v_clamp v = true \/ noclamp db f ->
     impl_eof db v f = None ->
-    read_count A db v rt f s n = Some n.
+    read_count A db v lb rt f s n = Some n.
 Proof. exact count_no_eof. Qed.
 
 (* gd_eof is the documented end-of-field (reported as 0 when negative by the repaired code) *)
@@ -113,21 +113,21 @@ Theorem nframes_is_complete_frames :
 Proof. exact nframes_ok. Qed.
 
 Theorem multirate_count_witness :
-  impl_eof db_32 v0 m_ab = Some 1 /\ read_count XAlg db_32 v0 F64 m_ab 1 2 = Some 1.
+  impl_eof db_32 v0 m_ab = Some 1 /\ read_count XAlg db_32 v0 (-1) F64 m_ab 1 2 = Some 1.
 Proof. exact witness_multirate_count. Qed.
 
 Theorem nested_phase_witness :
-  impl_eof db_a4 v0 q_nested = Some 8 /\ read_count XAlg db_a4 v0 F64 q_nested 0 10 = Some 2 /\
+  impl_eof db_a4 v0 q_nested = Some 8 /\ read_count XAlg db_a4 v0 (-1) F64 q_nested 0 10 = Some 2 /\
   impl_bof db_a4 v0 q_nested = 8 /\ is_real db_a4 q_nested 0 = true.
 Proof. exact witness_nested_phase. Qed.
 
 Theorem repaired_witness :
-  impl_eof db_32 v1 m_ab = Some 1 /\ read_count XAlg db_32 v1 F64 m_ab 1 2 = Some 0 /\
-  impl_eof db_a4 v1 q_nested = Some 2 /\ read_count XAlg db_a4 v1 F64 q_nested 0 10 = Some 2 /\
+  impl_eof db_32 v1 m_ab = Some 1 /\ read_count XAlg db_32 v1 (-1) F64 m_ab 1 2 = Some 0 /\
+  impl_eof db_a4 v1 q_nested = Some 2 /\ read_count XAlg db_a4 v1 (-1) F64 q_nested 0 10 = Some 2 /\
   impl_bof db_a4 v1 q_nested = 0.
 Proof. exact witness_repaired. Qed.
 
 Example count_hypotheses_inhabited :
-  wf db_ab m_ab /\ covered XAlg db_ab v0 F64 m_ab 2 40 /\ noclamp db_ab m_ab /\
-  impl_eof db_ab v0 m_ab = Some 8 /\ read_count XAlg db_ab v0 F64 m_ab 2 40 = Some 6.
+  wf db_ab m_ab /\ covered XAlg db_ab v0 (-1) F64 m_ab 2 40 /\ noclamp db_ab m_ab /\
+  impl_eof db_ab v0 m_ab = Some 8 /\ read_count XAlg db_ab v0 (-1) F64 m_ab 2 40 = Some 6.
 Proof. exact count_example. Qed.
